@@ -564,10 +564,16 @@ class BayesianNetwork(DAG):
             n_prev_samples = data.shape[0]
 
         # Step 1: Compute the pseudo_counts for the dirichlet prior.
-        pseudo_counts = {
-            var: compat_fns.to_numpy(self.get_cpds(var).get_values()) * n_prev_samples
-            for var in data.columns
-        }
+        # (the estimator lays tables out over the sorted parents: bring the previous CPDs into that order)
+        pseudo_counts = {}
+        for var in data.columns:
+            cpd = self.get_cpds(var)
+            parents = sorted(cpd.variables[1:])
+            if list(cpd.variables[1:]) != parents:
+                values = cpd.reorder_parents(parents, inplace=False)
+            else:
+                values = cpd.get_values()
+            pseudo_counts[var] = compat_fns.to_numpy(values) * n_prev_samples
 
         # Step 2: Get the current order of state names for aligning pseudo counts.
         state_names = {}
